@@ -827,3 +827,236 @@ Proof.
   - split; [lia|]. intros i Hi Hout. rewrite Hb; [apply byte_zeros|exact Hi|].
     intros k x fld Hin El. specialize (Hout k x fld Hin El). lia.
 Qed.
+
+(* ------------------------------------------------------------------ positional = keyword over the leading fields *)
+
+Section Positional.
+  Context {St : Type}.
+  Variable F : lfield -> pyval -> St -> res St.
+  Variable fs0 : list lfield.
+
+  (* fs is the suffix of fs0 that starts at position b *)
+  Definition suffix_at (b : Z) (fs : list lfield) : Prop :=
+    0 <= b /\ forall j, nth_error fs0 (Z.to_nat b + j) = nth_error fs j.
+
+  Lemma suffix_tail b f r : suffix_at b (f :: r) -> suffix_at (b + 1) r.
+  Proof.
+    intros (Hb & H). split; [lia|]. intros j. replace (Z.to_nat (b + 1) + j)%nat with (Z.to_nat b + S j)%nat by lia.
+    rewrite H. reflexivity.
+  Qed.
+
+  Lemma suffix_head b f r : suffix_at b (f :: r) -> (if b <? 0 then None else nth_error fs0 (Z.to_nat b)) = Some f.
+  Proof.
+    intros (Hb & H). destruct (Z.ltb_spec b 0); [lia|]. specialize (H 0%nat). rewrite Nat.add_0_r in H. exact H.
+  Qed.
+
+  Lemma list_is_dict l : forall fs b s, suffix_at b fs ->
+    (length l <= length (ctor_keys b fs))%nat ->
+    struct_from_list F fs l s = struct_from_dict F fs0 (combine (ctor_keys b fs) l) s.
+  Proof.
+    induction l as [|x l IH]; intros fs b s Hsuf Hlen.
+    - destruct (ctor_keys b fs); reflexivity.
+    - revert b Hsuf Hlen. induction fs as [|f r IHfs]; intros b Hsuf Hlen; [cbn in Hlen; lia|].
+      cbn [struct_from_list skip_ignored ctor_keys] in *.
+      destruct (ignore_in_ctor f) eqn:Ei.
+      + exact (IHfs (b + 1) (suffix_tail _ _ _ Hsuf) Hlen).
+      + cbn [combine struct_from_dict]. rewrite (suffix_head _ _ _ Hsuf).
+        destruct (F f x s) as [s1|e]; cbn [bind]; [|reflexivity].
+        apply IH; [eapply suffix_tail; exact Hsuf|cbn [length] in Hlen; lia].
+  Qed.
+
+  (* more items than constructor fields: never accepted *)
+  Lemma list_too_long l : forall fs b s r, (length (ctor_keys b fs) < length l)%nat ->
+    struct_from_list F fs l s <> Ok r.
+  Proof.
+    induction l as [|x l IH]; intros fs b s r Hlen; [cbn in Hlen; lia|].
+    revert b Hlen. induction fs as [|f rr IHfs]; intros b Hlen; [cbn; discriminate|].
+    cbn [struct_from_list skip_ignored ctor_keys] in *. destruct (ignore_in_ctor f) eqn:Ei.
+    - apply (IHfs (b + 1)). exact Hlen.
+    - destruct (F f x s) as [s1|e]; cbn [bind]; [|discriminate].
+      apply (IH rr (b + 1)). cbn [length] in Hlen. lia.
+  Qed.
+End Positional.
+
+Lemma suffix_at_0 fs : suffix_at fs 0 fs.
+Proof. split; [lia|]. intros j. reflexivity. Qed.
+
+Lemma size_struct_list_dict fuel fs l opt :
+  (length l <= length (ctor_keys 0 fs))%nat ->
+  size_struct fuel fs (VList l) opt = size_struct fuel fs (VDict (combine (ctor_keys 0 fs) l)) opt.
+Proof.
+  intros H. destruct fuel as [|f]; [reflexivity|]. cbn [size_struct struct_from_object].
+  apply list_is_dict; [apply suffix_at_0|exact H].
+Qed.
+
+Lemma fill_list_dict fuel size var fs off l m :
+  (length l <= length (ctor_keys 0 fs))%nat ->
+  fill fuel (LAgg size var fs) off (VList l) m =
+  fill fuel (LAgg size var fs) off (VDict (combine (ctor_keys 0 fs) l)) m.
+Proof.
+  intros H. destruct fuel as [|f]; [reflexivity|]. cbn [fill struct_from_object].
+  apply list_is_dict; [apply suffix_at_0|exact H].
+Qed.
+
+(* ffi.new("struct T *", [v1, .., vk]) = ffi.new("struct T *", {field_1: v1, .., field_k: vk}) where
+   field_1.. are the leading fields without BF_IGNORE_IN_CTOR — structs and unions, var-sized or not *)
+Theorem positional_is_keyword fuel size var fs l :
+  (length l <= length (ctor_keys 0 fs))%nat ->
+  new_bytes fuel (NewPtr (LAgg size var fs)) (VList l) =
+  new_bytes fuel (NewPtr (LAgg size var fs)) (VDict (combine (ctor_keys 0 fs) l)).
+Proof.
+  intros H. unfold new_bytes. cbn [alloc_size new_init new_target lsize agg_var agg_fields].
+  destruct (size <? 0); [reflexivity|]. destruct var; cbn [andb negb].
+  - rewrite (size_struct_list_dict fuel fs l size H).
+    destruct (size_struct fuel fs _ size) as [n|e]; cbn [bind]; [|reflexivity].
+    destruct (MAX_ALLOC <? n); [reflexivity|]. apply fill_list_dict. exact H.
+  - cbn [bind]. destruct (MAX_ALLOC <? size); [reflexivity|]. apply fill_list_dict. exact H.
+Qed.
+
+Theorem positional_too_long fuel size var fs l m :
+  (length (ctor_keys 0 fs) < length l)%nat ->
+  new_bytes fuel (NewPtr (LAgg size var fs)) (VList l) <> Ok m.
+Proof.
+  intros H. unfold new_bytes. cbn [alloc_size new_init new_target lsize agg_var agg_fields].
+  destruct (size <? 0); [cbn; discriminate|]. destruct var; cbn [andb negb].
+  - destruct fuel as [|f]; [cbn; discriminate|]. cbn [size_struct struct_from_object].
+    pose proof (list_too_long (size_field (size_struct f)) l fs 0 size) as Hn.
+    destruct (struct_from_list (size_field (size_struct f)) fs l size) as [n|e]; cbn [bind]; [|discriminate].
+    exfalso. exact (Hn n H eq_refl).
+  - cbn [bind]. destruct (MAX_ALLOC <? size); [discriminate|].
+    destruct fuel as [|f]; [discriminate|]. cbn [fill struct_from_object].
+    apply (list_too_long _ l fs 0). exact H.
+Qed.
+
+(* a union: only its first member is a constructor field *)
+Lemma union_keys f0 rest b :
+  ignore_in_ctor f0 = false -> Forall (fun f => ignore_in_ctor f = true) rest ->
+  ctor_keys b (f0 :: rest) = [b].
+Proof.
+  intros H0 Hr. cbn [ctor_keys]. rewrite H0. f_equal.
+  revert b. induction Hr as [|f r Hf Hr IH]; intros b; [reflexivity|]. cbn [ctor_keys]. rewrite Hf. apply IH.
+Qed.
+
+(* ------------------------------------------------------------------ the block has the size direct_newp computed *)
+
+Lemma alloc_fill_safe fuel T init n :
+  wf_type (new_target T) = true -> alloc_size fuel T init = Ok n ->
+  0 <= n /\
+  (new_init T init <> VNone ->
+   safe 0 n (fill fuel (new_target T) 0 (new_init T init) (zeros n)) (zeros n)).
+Proof.
+  intros Hwf Ha. destruct T as [t|item len]; cbn [new_target alloc_size new_init] in *.
+  - destruct (Z.ltb_spec (lsize t) 0) as [|Hsz]; [discriminate|].
+    set (datasize := match t with LPrim KChar _ => lsize t * 2 | _ => lsize t end) in *.
+    assert (Hds : lsize t <= datasize) by (subst datasize; destruct t as [[] ?| |]; lia).
+    replace (match init with VInt _ => init | _ => init end) with init by (destruct init; reflexivity).
+    destruct (agg_var t && negb (match init with VNone => true | _ => false end)) eqn:Ev.
+    + rewrite andb_true_iff, negb_true_iff in Ev. destruct Ev as (Ev & Hinit).
+      destruct t as [| |size var fs]; try discriminate. cbn in Ev. subst var. cbn [agg_fields lsize] in *.
+      subst datasize. pose proof (size_struct_lower _ _ _ _ _ Ha). split; [lia|]. intros _.
+      change n with (0 + n) at 1.
+      apply (P_all fuel fuel (le_n _) _ 0 init (zeros n) n); auto; try lia.
+      * cbn [need]. destruct (is_cdata init) eqn:Ec; [|exact Ha].
+        destruct init; try discriminate. destruct fuel; cbn in Ha; discriminate.
+      * rewrite mlen_zeros. lia.
+    + inversion Ha; subst n. split; [lia|]. intros Hnn.
+      assert (Hhv : agg_var t = false).
+      { destruct (agg_var t); [|reflexivity]. cbn in Ev. rewrite negb_false_iff in Ev.
+        destruct init; try discriminate Ev. contradiction. }
+      apply (safe_weaken 0 (0 + lsize t)); [lia|lia|].
+      apply (P_all fuel fuel (le_n _) t 0 init (zeros datasize) (lsize t)); auto; try lia.
+      * apply need_nonvar. exact Hhv.
+      * rewrite mlen_zeros. lia.
+  - pose proof Hwf as Hwf2. cbn [wf_type] in Hwf2. rewrite !andb_true_iff in Hwf2.
+    destruct Hwf2 as ((Hwi & Hisz) & Hlen). apply Z.ltb_lt in Hisz.
+    destruct (Z.ltb_spec len 0) as [Hneg|Hpos].
+    + destruct (get_new_array_length (lsize item) init) as [[cap b]|e] eqn:Eg; cbn [bind fst] in Ha; [|discriminate].
+      destruct (SSIZE_MAX <? cap * lsize item); [discriminate|]. inversion Ha; subst n.
+      pose proof (gnal_nonneg _ _ _ _ Eg) as Hcap. split; [nia|]. intros Hnn.
+      assert (Hi : (match init with VInt _ => VNone | _ => init end) = init)
+        by (destruct init; try reflexivity; contradiction).
+      rewrite Hi in *.
+      destruct fuel as [|f]; [apply safe_err; discriminate|]. cbn [fill].
+      apply (safe_weaken 0 (0 + lsize item * cap)); [lia|lia|].
+      apply (fill_array_safe _ item len cap); try lia; eauto.
+      * rewrite mlen_zeros. nia.
+      * intros x off2 m2 Ho2 Hb2. apply guarded_item_safe; auto. apply (P_all f f (le_n _)).
+    + inversion Ha; subst n. split; [nia|]. intros Hnn.
+      replace (match init with VInt _ => init | _ => init end) with init by (destruct init; reflexivity).
+      change (len * lsize item) with (0 + len * lsize item) at 1.
+      apply (P_all fuel fuel (le_n _) (LArr item len) 0 init _ (len * lsize item)); auto; try lia.
+      * cbn [lsize]. destruct (Z.ltb_spec len 0); [lia|nia].
+      * cbn [need lsize]. destruct (Z.ltb_spec len 0); [lia|reflexivity].
+      * rewrite mlen_zeros. nia.
+Qed.
+
+Theorem new_block_len fuel T init n m :
+  wf_type (new_target T) = true -> alloc_size fuel T init = Ok n ->
+  new_bytes fuel T init = Ok m -> mlen m = n.
+Proof.
+  intros Hwf Ha Hn. destruct (alloc_fill_safe fuel T init n Hwf Ha) as (Hnn & Hs).
+  unfold new_bytes in Hn. rewrite Ha in Hn. cbn [bind] in Hn.
+  destruct (MAX_ALLOC <? n); [discriminate|].
+  destruct (new_init T init) eqn:Ei;
+    try (destruct (Hs ltac:(discriminate)) as (_ & Hl); destruct (Hl m Hn) as (Hlen & _);
+         rewrite Hlen, mlen_zeros; lia).
+  inversion Hn. rewrite mlen_zeros. lia.
+Qed.
+
+(* ffi.sizeof(p[0]) (var-sized struct: the stored length; otherwise ct_size) and ffi.sizeof(p) of
+   an array are the size direct_newp computed, which is the size of the block *)
+Theorem sizeof_is_alloc_size fuel T init m slot :
+  wf_type (new_target T) = true ->
+  (forall k s, T <> NewPtr (LPrim k s)) ->        (* p[0] of a primitive pointer is not a cdata *)
+  new_object fuel T init = Ok (m, slot) ->
+  alloc_size fuel T init = Ok (sizeof_cdata T slot) /\ mlen m = sizeof_cdata T slot.
+Proof.
+  intros Hwf Hnp. unfold new_object.
+  destruct (alloc_size fuel T init) as [n|e] eqn:Ha; cbn [bind]; [|discriminate].
+  destruct (new_bytes fuel T init) as [m1|e] eqn:Hn; cbn [bind]; [|discriminate].
+  intros E. inversion E; subst m1 slot. clear E.
+  pose proof (new_block_len _ _ _ _ _ Hwf Ha Hn) as Hl.
+  destruct (alloc_fill_safe fuel T init n Hwf Ha) as (Hnn & _).
+  assert (Hs : sizeof_cdata T (own_length T n) = n); [|rewrite Hs; auto].
+  destruct T as [t|item len]; cbn [sizeof_cdata own_length].
+  - destruct (agg_var t) eqn:Ev.
+    + destruct (Z.ltb_spec n 0); [lia|reflexivity].
+    + cbn [alloc_size] in Ha. destruct (lsize t <? 0); [discriminate|]. rewrite Ev in Ha. cbn [andb] in Ha.
+      destruct t as [k s| |]; [exfalso; eapply Hnp; reflexivity| |]; inversion Ha; reflexivity.
+  - cbn [new_target wf_type] in Hwf. rewrite !andb_true_iff in Hwf. destruct Hwf as ((_ & Hisz) & _).
+    apply Z.ltb_lt in Hisz. cbn [alloc_size] in Ha. destruct (Z.ltb_spec len 0).
+    + destruct (get_new_array_length (lsize item) init) as [[cap b]|]; cbn [bind fst] in Ha; [|discriminate].
+      destruct (SSIZE_MAX <? cap * lsize item); [discriminate|]. inversion Ha; subst n.
+      rewrite Z.div_mul by lia. reflexivity.
+    + inversion Ha. reflexivity.
+Qed.
+
+(* array sequences fill the leading items: k items given, everything from item k on stays zero *)
+Theorem array_sequence_leading fuel item len l m :
+  wf_type (LArr item len) = true -> 0 <= len ->
+  new_bytes fuel (NewArr item len) (VList l) = Ok m ->
+  mlen l <= len /\ mlen m = len * lsize item /\
+  forall i, mlen l * lsize item <= i -> byte m i = 0.
+Proof.
+  intros Hwf Hlen Hn.
+  assert (Ha : alloc_size fuel (NewArr item len) (VList l) = Ok (len * lsize item))
+    by (cbn [alloc_size]; destruct (Z.ltb_spec len 0); [lia|reflexivity]).
+  pose proof (new_block_len fuel (NewArr item len) _ _ _ Hwf Ha Hn) as Hl.
+  pose proof Hwf as Hwf2. cbn [wf_type] in Hwf2. rewrite !andb_true_iff in Hwf2.
+  destruct Hwf2 as ((Hwi & Hisz) & _). apply Z.ltb_lt in Hisz.
+  unfold new_bytes in Hn. rewrite Ha in Hn. cbn [bind new_init new_target] in Hn.
+  destruct (Z.ltb_spec len 0); [lia|].
+  destruct (MAX_ALLOC <? len * lsize item); [discriminate|].
+  destruct fuel as [|f]; [discriminate|]. cbn [fill fill_array] in Hn.
+  destruct ((0 <=? len) && (len <? mlen l)) eqn:Hlong; [discriminate|].
+  assert (Hk : mlen l <= len).
+  { destruct (Z.leb_spec 0 len); [|lia]. destruct (Z.ltb_spec len (mlen l)); [discriminate|lia]. }
+  split; [exact Hk|]. split; [exact Hl|].
+  pose proof (mlen_nonneg l).
+  destruct (fill_items_safe
+              (fun off x m => bind (item_guard f item x) (fun _ => fill f item off x m))
+              (lsize item) ltac:(lia) l 0 (zeros (len * lsize item)) ltac:(lia)) as (_ & Hfr).
+  - rewrite mlen_zeros. nia.
+  - intros x off2 m2 Ho2 Hb2. apply guarded_item_safe; auto. apply (P_all f f (le_n _)).
+  - destruct (Hfr m Hn) as (_ & Hb). intros i Hi. rewrite Hb; [apply byte_zeros|nia|right; lia].
+Qed.
